@@ -20,6 +20,7 @@ pub struct Profile {
     pub w_readonly: u32,
     pub w_audit: u32,
     pub w_dropdb: u32,
+    pub w_failopen: u32,
     // op weights
     pub w_map: u32,
     pub w_mm: u32,
@@ -55,6 +56,7 @@ impl Profile {
             w_readonly: 1,
             w_audit: 4,
             w_dropdb: 1,
+            w_failopen: 0,
             w_map: 50,
             w_mm: 15,
             w_catalog: 8,
@@ -196,6 +198,7 @@ impl Profile {
             }
             "C20" => {
                 p.name = "lifecycle";
+                p.w_failopen = 10;
                 p.w_readonly = 8;
                 p.w_dropdb = 10;
                 p.w_reopen = 8;
@@ -575,7 +578,7 @@ impl<'a> Gen<'a> {
 
     pub fn step(&mut self) -> Step {
         let p = self.prof.clone();
-        let w = [p.w_txn, p.w_reader, p.w_spdrop, p.w_integrity, p.w_compact, p.w_reopen, p.w_crash, p.w_readonly, p.w_audit, p.w_dropdb];
+        let w = [p.w_txn, p.w_reader, p.w_spdrop, p.w_integrity, p.w_compact, p.w_reopen, p.w_crash, p.w_readonly, p.w_audit, p.w_dropdb, p.w_failopen];
         match self.rng.weighted(&w) {
             0 => Step::Txn(self.txn()),
             1 => Step::Reader(self.rop()),
@@ -589,7 +592,8 @@ impl<'a> Gen<'a> {
             6 => Step::Crash { choice: self.crash_choice() },
             7 => Step::ReadOnlyOpen,
             8 => Step::Audit,
-            _ => Step::DropDbDuringTxn { txn: self.txn() },
+            9 => Step::DropDbDuringTxn { txn: self.txn() },
+            _ => Step::FailingOpen { kind: self.rng.below(6) as u8, arg: self.rng.next() },
         }
     }
 
